@@ -125,7 +125,9 @@ def check_input(input_data, y=None, preprocessor=None,
   # We need to convert input_data into a numpy.ndarray if possible, before
   # any further checks or conversions, and deal with y if needed. Therefore
   # we use check_array/check_X_y with fixed permissive arguments.
-  if y is None:
+  if y is None or np.ndim(input_data) == 0:
+    # (a 0D input is rejected below whatever the labels are, and
+    # scikit-learn's check_X_y would fail on it with a TypeError)
     input_data = check_array(input_data, ensure_2d=False, allow_nd=True,
                              copy=False, accept_sparse=True, dtype=None,
                              ensure_min_features=0, ensure_min_samples=0,
